@@ -27,7 +27,8 @@ RULE = ("(A) ALL reference graphs over 3 nodes (root = memento function, the oth
         '; further forms: lambda, factory, xdeco (decorator from another module), nestedlocal; graph edges and callees-first calls also in random programs; function-valued defaults'
         '; rounds 7-9: forms prefix, lrucache, declared, nowraps; four-node graphs (aimed family + seeded sample) in the quick tier; aimed pinned-callee hidden edges and builtin-named functions in random programs; functions bound by partial'
         '; rounds 10-11: four-node graphs with the root in one package and the others in another (xpkg4)'
-        '; round 13: memento functions behind object-style decorators, a four-package program under six hash seeds, a global that answers every attribute')
+        '; round 13: memento functions behind object-style decorators, a four-package program under six hash seeds, a global that answers every attribute'
+        '; round 14: hidden callees that have a namesake among the names the caller mentions (two modules, four spellings)')
 ASSUMPTIONS = ["builtins mentioned in a body show up as undefined-symbol rules without hash contribution; the oracle "
                "ignores non-memento rules", "a function never counts as its own dependency"]
 TIMEOUT = 900
